@@ -140,13 +140,14 @@ def c1_tables(fb, rep):
         # castling letters
         bits = {n: fb.const('Position::' + n) for n in ('A1_CASTLE', 'H1_CASTLE', 'A8_CASTLE', 'H8_CASTLE')}
         cread = {}
+        cm_ids = {(_strip(e_['args'][0]) or {}).get('id') for _, _, e_ in rf.events() if e_.get('k') == 'call' and cname(e_) == 'Position::setCastleMask' and e_.get('args')}
         for bid in sorted(rf.blocks, reverse=True):
             t = rf.blocks[bid].get('term')
             if t and t.get('c') == 'SwitchStmt' and bid != sw:
                 for b2, bb in rf.blocks.items():
                     lb = bb.get('label') or {}
                     if lb.get('k') == 'case' and 'v' in lb and b2 in rf.blocks[bid]['succ']:
-                        e = arm_first(rf, b2, lambda ev: ev.get('k') == 'asg' and ev.get('op') == '|=' and isinstance(ev.get('l'), dict) and ev['l'].get('n') == 'castleMask')
+                        e = arm_first(rf, b2, lambda ev: ev.get('k') == 'asg' and ev.get('op') == '|=' and isinstance(ev.get('l'), dict) and ev['l'].get('id') in cm_ids)
                         if e is not None and 'cv' in (_strip(e.get('r')) or {}):
                             cread[chr(lb['v'])] = _strip(e['r'])['cv']
         cs = fb.find1('TextIO::castleMaskToString')
@@ -201,12 +202,23 @@ def c1_tables(fb, rep):
     if rep.need(clause, us, 'TextIO::uciStringToMove'):
         sw, arms = switch_arms(us, lambda c: True)
         read = {}
+        colour_ids = set()
+        prom_ids = set()
+        for _, _, e_ in us.events():
+            for n_ in walk(e_):
+                if n_.get('k') == 'ctor' and n_.get('cls') == 'Move' and len(n_.get('args', [])) >= 3:
+                    a_ = _strip(n_['args'][2])
+                    if isinstance(a_, dict) and a_.get('k') == 'var':
+                        prom_ids.add(a_.get('id'))
         for ch, blk in arms.items():
-            e = arm_first(us, blk, lambda ev: ev.get('k') == 'asg' and isinstance(ev.get('l'), dict) and ev['l'].get('n') == 'promoteTo')
+            e = arm_first(us, blk, lambda ev: ev.get('k') == 'asg' and isinstance(ev.get('l'), dict) and ev['l'].get('id') in prom_ids)
             if e is not None:
                 r = _strip(e.get('r'))
                 if isinstance(r, dict) and r.get('k') == 'cond':
-                    read[chr(ch)] = ((_strip(r['a']) or {}).get('cv'), (_strip(r['b']) or {}).get('cv'), show(r.get('c')))
+                    cv_ = _strip(r.get('c'))
+                    if isinstance(cv_, dict) and cv_.get('k') == 'var':
+                        colour_ids.add(cv_.get('id'))
+                    read[chr(ch)] = ((_strip(r['a']) or {}).get('cv'), (_strip(r['b']) or {}).get('cv'), 'white' if isinstance(cv_, dict) and cv_.get('k') == 'var' else show(r.get('c')))
                 elif isinstance(r, dict) and 'cv' in r:
                     read[chr(ch)] = (r['cv'], r['cv'], '')
         rep.floor(clause, 'promotion letters read by uciStringToMove', len([k for k in read if k != ' ']), 4)
@@ -235,7 +247,7 @@ def c1_tables(fb, rep):
         # the colour of a 5-character move is taken from the target rank
         ranks = {}
         for b, i, e in us.events():
-            if e.get('k') == 'asg' and isinstance(e.get('l'), dict) and e['l'].get('n') == 'white' and 'cv' in (e.get('r') or {}):
+            if e.get('k') == 'asg' and isinstance(e.get('l'), dict) and e['l'].get('id') in colour_ids and 'cv' in (e.get('r') or {}):
                 g = G.guards_of(us, set(us.blocks), b)
                 yy = [x for x in g if 'getY()' in x]
                 if yy:
